@@ -206,7 +206,7 @@ class TTMatrix:
 
         :return: bool
         """
-        return max(self.ranks) == 1
+        return len(self.ranks) == 0 or max(self.ranks) == 1
 
     def _check_kron_properties(self):
         """
@@ -218,7 +218,7 @@ class TTMatrix:
                 "The argument should be a Kronecker product (tt-ranks " "should be 1)"
             )
 
-        if torch.equal(self.input_dims, self.output_dims):
+        if not torch.equal(self.input_dims, self.output_dims):
             raise ValueError(
                 "The argument should be a Kronecker product of square "
                 "matrices (tt-cores must be square)"
